@@ -21,6 +21,7 @@ var orderTargets = []orderTarget{
 	{"generator/swagen/swagen31/spec_generator31.go", "GenerateSpec"},
 	{"generator/swagen/spec_manager.go", "GenerateSpec"},
 	{"generator/swagen/spec_manager.go", "GenerateAndOutputSpec"},
+	{"generator/swagen/spec_manager.go", "OutputSpec"},
 	{"cmd/entrypoint.go", "LoadGleeceConfig"},
 	{"cmd/entrypoint.go", "GetConfigAndMetadata"},
 	{"cmd/entrypoint.go", "GenerateSpec"},
